@@ -20,6 +20,8 @@ opaque_f = _make_opaque()   # a user function about which nothing is known (appl
 
 def run(chk):
     chk.level = "proof"
+    from props import native_diff
+    native_diff.run(chk, "C09")
     chk.assume("f(V D V^-1) = V f(D) V^-1 (definition of a primary matrix function on a diagonalisable matrix), sqrt(A)sqrt(A) = A, "
                "(A (x) B)^t = A^t (x) B^t for PSD factors, exp(A (+) B) = exp A (x) exp B are lemmas (ASSUMED or Mathlib-named, see coverage.lemmas)")
     chk.assume("Krylov paths (LanczosUnary / ArnoldiUnary._matmat) at full Krylov dimension: Krylov exactness is ASSUMED; accuracy below full "
